@@ -92,19 +92,49 @@ def edge_literals_dominating(facts, b, tr, site, want):
     for bb in range(len(b.blocks)):
         if b.term(bb)["k"] != "SwitchInt" or bb == site or not b.dominates(bb, site):
             continue
-        g = guard_at(facts, b, tr, bb)
-        if g is None:
+        g0 = guard_at(facts, b, tr, bb)
+        if g0 is None:
             continue
-        acc = want(g)
-        if not acc:
-            continue
-        by_t = {}
-        for succ, v in g.edges:
-            by_t.setdefault(succ, []).append(v)
-        for succ, vals in by_t.items():
-            if all(v in acc for v in vals) and b.edge_dominates((bb, succ), site):
-                out.append((bb, vals[0]))
+        for g in (g0, as_variant_guard(g0)):
+            if g is None:
+                continue
+            acc = want(g)
+            if not acc:
+                continue
+            by_t = {}
+            for succ, v in g.edges:
+                by_t.setdefault(succ, []).append(v)
+            hit = False
+            for succ, vals in by_t.items():
+                if all(v in acc for v in vals) and b.edge_dominates((bb, succ), site):
+                    out.append((bb, vals[0]))
+                    hit = True
+            if hit:
+                break
     return out
+
+
+_PRED_VARIANT = {"is_some": ("core::option::Option", "Some", "None"), "is_none": ("core::option::Option", "None", "Some"),
+                 "is_ok": ("core::result::Result", "Ok", "Err"), "is_err": ("core::result::Result", "Err", "Ok")}
+
+
+def as_variant_guard(g):
+    """`if x.is_some()` / `is_none()` / `is_ok()` / `is_err()` read as the equivalent match on the variant of x."""
+    from an import Guard
+    if g.kind != "bool":
+        return None
+    p = strip(g.pred)
+    if p.kind != "call" or p[6] not in _PRED_VARIANT or not p[3]:
+        return None
+    adt, tv, fv = _PRED_VARIANT[p[6]]
+    if not (("option::Option" in (p[2] or "") or "Option::<" in (p[1] or "")) if "option" in adt else
+            ("result::Result" in (p[2] or "") or "Result::<" in (p[1] or ""))):
+        return None
+    subj = p[3][0]
+    while subj.kind in ("ref", "deref"):
+        subj = subj[1]
+    edges = [(succ, tv if v is True else fv) for succ, v in g.edges]
+    return Guard(g.bb, subj, edges, "discr", adt)
 
 
 def derives_from_call(node, call_bb):
@@ -135,6 +165,8 @@ def credit_leak_after_take(facts, b, tr, tc, pushes):
         if t["k"] == "Return" or x == tc:
             return x
         g = guard_at(facts, b, tr, x)
+        if g is not None and g.kind == "bool":
+            g = as_variant_guard(g) or g
         for y in b.succ[x]:
             if b.blocks[y]["cleanup"]:
                 continue
